@@ -15,6 +15,7 @@ from fractions import Fraction
 from math import lcm
 
 from core import Harness, InfraError, ScriptedSource, enumerate_scripts
+from core import sx as core_sx
 
 from geneticengine.exceptions import GeneticEngineError
 from geneticengine.grammar.decorators import abstract, get_gengy, weight
@@ -413,6 +414,85 @@ def check_stack(h: Harness, g, desc: str):
 
 
 # ----------------------------------------------------------------------------------------
+# whole programs: what the weight-aware choosers BUILD
+# ----------------------------------------------------------------------------------------
+
+def check_programs(h: Harness):
+    """programs created with the weight-aware decider (ProgressivelyTerminalDecider) and mapped by the stack representation
+    (whose symbol draw is weighted) on grammars with a switched-off production -- weight 0 -- beside positive-weight siblings
+    that can always be built: no program contains the switched-off production, also when a sibling production fails and
+    creation retries, and also when the switched-off production is a nested abstract type with buildable children"""
+    import gram
+    import synth
+    from linear import Stack, safe
+    from geneticengine.random.sources import NativeRandomSource
+    from geneticengine.representations.tree.treebased import TreeBasedRepresentation
+    C = gram.ClassSpec
+    r03 = ("ann", "int", ("intRange", 0, 3))
+    failing = [("vars", ("ann", ("list", ("ann", "str", ("varRange", ["x", "y"]))), ("listSize", 0, 0))), ("x", ("ann", "str", ("depVarFrom", "vars")))]
+    sometimes = [("vars", ("ann", ("list", ("ann", "str", ("varRange", ["x", "y"]))), ("listSize", 0, 1))), ("x", ("ann", "str", ("depVarFrom", "vars")))]
+    grammars = [
+        # (spec, indices of the switched-off classes, representations)
+        (gram.Spec([C("A0", True, None), C("Hole", False, 0, [], weight=0), C("Lit", False, 0, [("k", r03)], weight=2),
+                    C("Let", False, 0, [("e", ("cls", 0)), ("b", ("cls", 0))], weight=3), C("Var", False, 0, failing, weight=5)], 0, [1, 2, 3, 4]), {1}, ("progressive",)),
+        (gram.Spec([C("A0", True, None), C("Var", False, 0, sometimes, weight=6), C("Hole", False, 0, [("k", r03)], weight=0.0), C("Lit", False, 0, [], weight=1),
+                    C("Neg", False, 0, [("e", ("cls", 0))], weight=1)], 0, [1, 2, 3, 4]), {2}, ("progressive",)),
+        (gram.Spec([C("Shape", True, None), C("Curved", True, 0, weight=0), C("Circle", False, 1, [("r", r03)], weight=3), C("Ellipse", False, 1, [("a", r03), ("b", r03)], weight=1),
+                    C("Square", False, 0, [("s", r03)], weight=2), C("Pair", False, 0, [("a", ("cls", 0)), ("b", ("cls", 0))], weight=1)], 0, [1, 2, 3, 4, 5]), {2, 3}, ("progressive", "stack")),
+        (gram.Spec([C("Shape", True, None), C("Curved", True, 0, weight=0), C("Circle", False, 1, [], weight=1), C("Square", False, 0, [], weight=2),
+                    C("Frame", False, 0, [("inner", ("cls", 0))], weight=1)], 0, [2, 3, 4, 1]), {2}, ("progressive", "stack")),
+    ]
+    rng = h.rng
+    for spec, off, kinds in grammars:
+        b = gram.build(spec)
+        g = b.extract()
+        desc = core_sx(gram.spec_sx(spec))
+        names = sorted(spec.classes[i].name for i in off)
+
+        def uses_off(c):
+            todo = [c]
+            while todo:
+                x = todo.pop()
+                if isinstance(x, list):
+                    if x and x[0] == "n" and x[1] in off:
+                        return True
+                    todo += [y for y in x if isinstance(y, list)]
+            return False
+        for kind in kinds:
+            made = 0
+            for trial in range(h.n(60, 400)):
+                r = NativeRandomSource(rng.randrange(10**6))
+                if kind == "progressive":
+                    rep = TreeBasedRepresentation(g, synth.make_decider("progressive", 5, r, g))
+                    site = "ProgressivelyTerminalDecider.choose_production_alternatives"
+                else:
+                    rep = Stack(g, gene_length=256)
+                    site = "create_tree_using_stacks"
+                st, geno = safe(lambda: rep.create_genotype(r))
+                progs = []
+                for step in range(3):
+                    if st != "ok":
+                        break
+                    st2, p = safe(lambda: rep.genotype_to_phenotype(geno))
+                    if st2 == "ok":
+                        progs.append(p)
+                    st, geno = safe(lambda: rep.mutate(r, geno))
+                for p in progs:
+                    made += 1
+                    c = gram.canon(p, b, meta=False)
+                    if uses_off(c):
+                        h.fail(site, "zero-weight-production-chosen",
+                               f"a program built with the {'weight-aware decider' if kind == 'progressive' else 'stack representation'} contains the switched-off "
+                               f"(weight 0) production(s) {names} although positive-weight siblings can be built: {core_sx(c)[:200]}", [desc, kind, trial])
+                        break
+                else:
+                    continue
+                break
+            h.count(f"programs-on-grammars-with-switched-off-productions:{kind}", made)
+            h.seen(f"programs:{desc}:{kind}", nontrivial=made > 20)
+
+
+# ----------------------------------------------------------------------------------------
 # corpus
 # ----------------------------------------------------------------------------------------
 
@@ -454,6 +534,7 @@ def run(h: Harness):
             check_ptd(h, g, nodes, budget)
             check_stack(h, g, describe(nodes, []))
 
+    check_programs(h)
     # -- corpus
     full(corpus_flat([0, 1]), "D", 3)
     full(corpus_flat([0, None]), "D", 2)
